@@ -210,7 +210,7 @@ def config_variants(rng):
         methods = [m for m in pool if rng.random() < 0.7]
         for m in methods:
             if rng.random() < 0.2:
-                m["dst"] = rng.choice(["renamed", "hookA", "plusOperator", "x1"])
+                m["dst"] = rng.choice(["renamed", "hookA", "plusOperator", "x1", "$hook", "_h", "$", "h$1", "__proto_h"])
             if rng.random() < 0.1 and not m.get("operator"):
                 m["allowedWithoutCallee"] = True
         rng.shuffle(methods)
